@@ -7,7 +7,7 @@ and dumped the same way.  Every op is wrapped in guarded(): an exception is data
 """
 import numpy as np
 
-from implcommon import read_payload, emit, hx, unhx, guarded
+from implcommon import read_payload, emit, hx, unhx, guarded, LABEL_PROBLEMS
 
 EPOCH = np.datetime64("2020-01-01T00:00:00", "s")
 
@@ -102,6 +102,42 @@ def kw_periodic(c):
     return kw
 
 
+def audit_axis(r, ds, coord, targets, what):
+    """labels of the result of an interpolation along `coord`: the interpolated coordinate holds the requested
+    targets in the requested order; every other dimension of every variable keeps the input's coordinate"""
+    tv = np.atleast_1d(np.asarray(getattr(targets, "values", targets)))
+    for name in r.data_vars:
+        v = r[name]
+        for d in v.dims:
+            d = str(d)
+            if d == coord:
+                want = tv
+            elif d in ds.coords and d in ds.dims:
+                want = np.asarray(ds.coords[d].values)
+            else:
+                continue
+            if len(LABEL_PROBLEMS) >= 40:
+                return
+            if d not in v.coords:
+                LABEL_PROBLEMS.append({"what": "%s: variable %s" % (what, name), "call": what,
+                                       "problem": "dimension %r carries no coordinate in the result (labels %s... lost: "
+                                                  "values can only be read by position)" % (d, str(want[:4]))})
+                continue
+            got = np.asarray(v.coords[d].values)
+            ok = got.shape == want.shape
+            if ok:
+                if np.issubdtype(got.dtype, np.datetime64) or np.issubdtype(want.dtype, np.datetime64):
+                    ok = bool(np.array_equal(got.astype("datetime64[ns]"), want.astype("datetime64[ns]")))
+                else:
+                    ok = bool(np.array_equal(np.asarray(got, dtype=float), np.asarray(want, dtype=float)))
+            if not ok:
+                LABEL_PROBLEMS.append({"what": "%s: variable %s" % (what, name), "call": what,
+                                       "problem": "coordinate %r of the result is %s..., expected %s... (%s)"
+                                                  % (d, str(got[:5]), str(want[:5]),
+                                                     "the requested targets, in the requested order" if d == coord
+                                                     else "the input's own labels")})
+
+
 def op_ds_axis(c):
     from ocean_science_utilities.interpolate.dataset import interpolate_dataset_along_axis
     ds = build_ds(c["ds"])
@@ -109,6 +145,7 @@ def op_ds_axis(c):
     r = interpolate_dataset_along_axis(targets_of(c["targets"]), ds, coordinate_name=c["coord"],
                                        nearest_neighbour=c.get("nearest", False), **kw_periodic(c))
     out = dump_ds(r)
+    audit_axis(r, ds, c["coord"], targets_of(c["targets"]), "interpolate_dataset_along_axis(%s)" % c["coord"])
     out["input_unchanged"] = (before == dump_ds(ds))
     return out
 
